@@ -490,6 +490,10 @@ class TaskScenario(ScenarioData):
                                 gap_hours = self._parse_duration(gaplength)
                                 gap_slots = int(gap_hours)  # Each slot is 1 hour
                                 dep_time_idx = self.project.dateToIdx(dep_time)
+                                # Slots before the project start are never working time: a predecessor
+                                # pinned far before the project must not be walked to slot by slot
+                                if dep_time_idx < 0 and self.project.scoreboard is not None:
+                                    dep_time_idx = 0
                                 # Skip gap_slots of working time
                                 working_slots = 0
                                 sb_size = self.project.scoreboardSize()
